@@ -9,12 +9,12 @@ ABORTS = ["abortnoentity", "abortnostorage", "abortroot", "discard"]
 PROJ = {
     "C01": ["m+", "m-", "applied", "body", "qt", "send", ("wide", 1), ("huge", 0.15)],
     "C02": RUNNER + ["body", "qs"],
-    "C03": ["enter", "body", "m+", "m-", "send", ("wide", 1), ("huge", 0.15), ("burst", 1)],
-    "C04": ["enter", "exit", "body", "bodyend", "m+", "m-", ("huge", 0.15)],
+    "C03": ["enter", "body", "accessor-mismatch", "m+", "m-", "send", ("wide", 1), ("huge", 0.15), ("burst", 1)],
+    "C04": ["enter", "exit", "body", "accessor-mismatch", "bodyend", "m+", "m-", ("huge", 0.15)],
     "C05": ["send", "drop", "body", "qx", "m+", "m-", "applied"] + ABORTS,
     "C06": ["m+", "m-", "applied", "body", "qt", ("wide", 1)],
     "C07": ["qa", "canary", "qt", "m+", "m-", "dropped", ("wide", 1)],
-    "C08": ["applied", "body", "m+", "m-", "qk", "qa"],
+    "C08": ["applied", "body", "accessor-mismatch", "m+", "m-", "qk", "qa"],
     "C09": RUNNER + ["m+", "m-", "body", "bodyend"],
     "C10": ["qa", "canary"],
     "C11": ["qs", "qx", ("burst", 1)],
